@@ -163,7 +163,15 @@ func VerifC03Node() {
 	payload := []byte{byte(count)}
 	var first *wire.BlockHeader
 	for i := 0; i < count; i++ {
-		raw := nondetBytes(fmt.Sprintf("header%d", i), 80)
+		var raw []byte
+		if nondetBool(fmt.Sprintf("real-bsv-header%d", i)) {
+			// the real BSV split header (so that counterexamples replay natively with real SHA-256)
+			var buf bytes.Buffer
+			headers.MainNetRequiredHeader.Serialize(&buf)
+			raw = buf.Bytes()
+		} else {
+			raw = nondetBytes(fmt.Sprintf("header%d", i), 80)
+		}
 		if i == 0 {
 			first = &wire.BlockHeader{}
 			first.Deserialize(bytes.NewReader(raw))
